@@ -37,8 +37,12 @@ NA = XlError('#N/A')
 
 class Operand(Token):
     def ast(self, tokens, stack, builder):
-        if tokens and isinstance(tokens[-1], Operand):
-            raise TokenError()
+        if tokens:
+            from .parenthesis import Parenthesis
+            if isinstance(tokens[-1], Operand) or (
+                    isinstance(tokens[-1], Parenthesis) and tokens[-1].has_end
+            ):
+                raise TokenError()
         super(Operand, self).ast(tokens, stack, builder)
         builder.append(self)
         _update_n_args(stack)
